@@ -348,6 +348,15 @@ func main() {
 				vv := vs[i]
 				tried++
 				handled := false
+				nat.ExtraCfg = nil
+				if fw := vv.Witness["extra-config-files"]; fw != "" {
+					nat.ExtraCfg = map[string]string{}
+					for _, rec := range strings.Split(fw, "\x1d") {
+						if parts := strings.SplitN(rec, "\x1e", 2); len(parts) == 2 {
+							nat.ExtraCfg[parts[0]] = parts[1]
+						}
+					}
+				}
 				if prop.Custom != nil {
 					rr, handled = prop.Custom(nat, job, &vv)
 				}
@@ -384,6 +393,7 @@ func main() {
 						}
 					}
 				}
+				nat.ExtraCfg = nil
 				if rr.Reproduced {
 					rep.Model, rep.Witness, rep.Msg = vv.Model, vv.Witness, vv.Msg
 					v = vv
